@@ -137,6 +137,15 @@ def build_and_audit(log=print):
         lock.close()
 
 
+def leanchecker(modules):
+    """Thorough tier: replay the compiled .olean files of the property's modules through Lean's independent checker."""
+    t0 = time.time()
+    r = subprocess.run(["lake", "env", "leanchecker"] + list(modules), cwd=LEAN_DIR, capture_output=True, text=True)
+    if r.returncode != 0:
+        raise InfraError("leanchecker rejected the compiled modules:\n" + r.stdout[-3000:] + r.stderr[-2000:])
+    return round(time.time() - t0, 1)
+
+
 def gate(prop_id):
     """The Lean gate for one property: returns dict(obligations, discharged, theorems, bad)."""
     hits = grep_forbidden()
